@@ -547,6 +547,176 @@ SQ3 = "'" * 3
 DQ3 = '"' * 3
 
 
+# ---- RFC 3986 section 5.2 reference resolution (own implementation: the oracle for relative IRIs)
+import re as _re
+
+_URI_RE = _re.compile(r"^(?:([^:/?#]+):)?(?://([^/?#]*))?([^?#]*)(?:\?([^#]*))?(?:#(.*))?$", _re.S)
+
+
+def uri_split(u):
+    m = _URI_RE.match(u)
+    return m.group(1), m.group(2), m.group(3), m.group(4), m.group(5)
+
+
+def remove_dot_segments(path):
+    out, inp = [], path
+    while inp:
+        if inp.startswith("../"):
+            inp = inp[3:]
+        elif inp.startswith("./"):
+            inp = inp[2:]
+        elif inp.startswith("/./"):
+            inp = inp[2:]
+        elif inp == "/.":
+            inp = "/"
+        elif inp.startswith("/../"):
+            inp = inp[3:]
+            if out:
+                out.pop()
+        elif inp == "/..":
+            inp = "/"
+            if out:
+                out.pop()
+        elif inp in (".", ".."):
+            inp = ""
+        else:
+            i = inp.find("/", 1)
+            if i < 0:
+                out.append(inp)
+                inp = ""
+            else:
+                out.append(inp[:i])
+                inp = inp[i:]
+    return "".join(out)
+
+
+def rfc_resolve(base, ref):
+    bs, ba, bp, bq, _ = uri_split(base)
+    rs, ra, rp, rq, rf = uri_split(ref)
+    if rs is not None:
+        ts, ta, tp, tq = rs, ra, remove_dot_segments(rp), rq
+    else:
+        if ra is not None:
+            ta, tp, tq = ra, remove_dot_segments(rp), rq
+        else:
+            if rp == "":
+                tp = bp
+                tq = rq if rq is not None else bq
+            else:
+                if rp.startswith("/"):
+                    tp = remove_dot_segments(rp)
+                else:
+                    merged = "/" + rp if (ba is not None and bp == "") else bp[: bp.rfind("/") + 1] + rp
+                    tp = remove_dot_segments(merged)
+                tq = rq
+            ta = ba
+        ts = bs
+    return ((ts + ":") if ts is not None else "") + (("//" + ta) if ta is not None else "") + tp + \
+        (("?" + tq) if tq is not None else "") + (("#" + rf) if rf is not None else "")
+
+
+def join_as_is(here, there):
+    """What notation3.join computes on the unchanged tree (transcribed; used ONLY to keep the writers outside the
+    regions of findings C05l-o and to predict the failing cells of suite relref; never as an oracle)."""
+    slashl, colonl = there.find("/"), there.find(":")
+    if colonl >= 0 and (slashl < 0 or colonl < slashl):
+        return there
+    bcolonl = here.find(":")
+    h = there.find("#")
+    path, frag = (there, "") if h < 0 else (there[:h], there[h:])
+    if not path:
+        return here + frag
+    if here[bcolonl + 1: bcolonl + 2] != "/":
+        return None
+    bpath = here.find("/", bcolonl + 3) if here[bcolonl + 1: bcolonl + 3] == "//" else bcolonl + 1
+    if bpath < 0:
+        bpath = len(here)
+        here = here + "/"
+    if there[:2] == "//":
+        return here[: bcolonl + 1] + there
+    if there[:1] == "/":
+        return here[:bpath] + there
+    slashr = here.rfind("/")
+    while True:
+        if path[:2] == "./":
+            path = path[2:]
+        if path == ".":
+            path = ""
+        elif path[:3] == "../" or path == "..":
+            path = path[3:]
+            i = here.rfind("/", bpath, slashr)
+            if i >= 0:
+                here = here[: i + 1]
+                slashr = i
+        else:
+            break
+    return here[: slashr + 1] + path + frag
+
+
+def effective_base(base, via):
+    return base.split("#")[0] if via == "publicID" else base      # only publicID is stripped of its fragment
+
+
+def rel_region(base, ref, via):
+    """finding number whose region (base, ref) lies in, 0 = none"""
+    if join_as_is(effective_base(base, via), ref) == rfc_resolve(base, ref):
+        return 0
+    rpath = ref.split("#")[0].split("?")[0]
+    if ref.startswith("?"):
+        return 12      # C05l query-only reference
+    if "/./" in rpath or "/../" in rpath or rpath.endswith(("/.", "/..")):
+        return 13      # C05m dot segments after the first segment
+    if "?" in base.split("#")[0]:
+        return 14      # C05n base with a query
+    if "#" in base and via != "publicID":
+        return 15      # C05o @base/BASE with a fragment
+    return 99          # a disagreement outside every known region: never excused
+
+
+BASES = ["http://e", "http://e/", "http://e/d/", "http://e/d/x", "http://e/d/e/f", "http://e/d/x?q=1", "http://e/d/x#frag",
+         "http://e/d/?k=a/b", "http://e?q", "http://e/d/e/f/"]
+NEAR_REFS = ["/s", "/ns/p", "/", "x", "x/y", "../z", "../../w", "?q=2", "#f", "", "//other.org/x#c1", ".", "..", "y?k=v#g", "/a/b#c",
+             "./", "../"]
+
+
+def rel_candidates(base, target):
+    """references that may resolve to target against base (each is verified by the caller)"""
+    bs, ba, bp, bq, _ = uri_split(base)
+    ts, ta, tp, tq, tf = uri_split(target)
+    if ts != bs or ta is None:
+        return []
+    qf = (("?" + tq) if tq is not None else "") + (("#" + tf) if tf is not None else "")
+    out = ["//" + ta + tp + qf]
+    if ta != ba:
+        return out
+    if tp.startswith("/"):
+        out.append(tp + qf)
+    bdir = "/" if bp == "" else bp[: bp.rfind("/") + 1]
+    d = bdir
+    for k in range(4):
+        if tp.startswith(d):
+            rem = tp[len(d):]
+            up = "../" * k
+            if rem:
+                if ":" not in rem.split("/")[0]:
+                    out.append(up + rem + qf)
+                    if k == 0:
+                        out.append("./" + rem + qf)
+            elif k == 0:
+                out += ["." + qf, "./" + qf]
+            else:
+                out += [up + qf, up[:-1] + qf]
+        if d == "/":
+            break
+        d = d[: d.rstrip("/").rfind("/") + 1]
+    if tp == bp:
+        if tq is not None:
+            out.append(qf)
+        if tq == bq:
+            out.append(("#" + tf) if tf is not None else "")
+    return out
+
+
 class Anon:  # [ p o ; ... ]
     def __init__(self, pos):
         self.pos = pos
@@ -557,7 +727,14 @@ class Coll:  # ( ... )
         self.items = items
 
 
-def g_iri(rng):
+class Ctx(list):
+    """blank node labels of a document + IRIs near its base"""
+    near: list = []
+
+
+def g_iri(rng, near=None):
+    if near and rng.random() < 0.35:
+        return ("I", rng.choice(near))
     r = rng.random()
     if r < 0.6:
         return ("I", NS_E + rng.choice(LOCALS))
@@ -589,7 +766,7 @@ def g_obj(rng, depth, labels):
     if r < 0.35:
         return g_lit(rng)
     if r < 0.6:
-        return g_iri(rng)
+        return g_iri(rng, getattr(labels, "near", None))
     if r < 0.72:
         return ("B", rng.choice(labels))
     if r < 0.86 and depth < 2:
@@ -613,7 +790,7 @@ def g_statements(rng, labels):
     for _ in range(rng.choice([1, 1, 2, 3])):
         r = rng.random()
         if r < 0.6:
-            subj = g_iri(rng)
+            subj = g_iri(rng, getattr(labels, "near", None))
         elif r < 0.8:
             subj = ("B", rng.choice(labels))
         elif r < 0.9:
@@ -664,14 +841,25 @@ class Ev:
 
 
 class TurtleWriter:
-    def __init__(self, rng, trig=False):
+    def __init__(self, rng, trig=False, base=None, via=None):
         self.rng = rng
+        self.base, self.via = base, via          # via: "@base" | "BASE" | "publicID" | None (no base at all)
+        self.rel_ns = set()
         r = rng.random()
         self.pe = "" if r < 0.3 else rng.choice(["e", "E1", "e.x", "é"])       # prefix for NS_E ("" = default prefix)
         self.po = rng.choice(["o", "o-1", "_o"]) if self.pe != "" or rng.random() < 0.5 else "o"
-        self.use_base = rng.random() < 0.6
+        self.use_base = via is not None
         self.used = set()
         self.flags = set()
+
+    def relative(self, s):
+        """a relative reference for s against the document's base: any RFC 3986 kind that resolves to s (own resolver)
+        and lies outside the regions of findings C05l-o; None if there is none"""
+        if not self.use_base:
+            return None
+        ok = [r for r in dict.fromkeys(rel_candidates(self.base, s))
+              if rfc_resolve(self.base, r) == s and rel_region(self.base, r, self.via) == 0]
+        return self.rng.choice(ok) if ok else None
 
     def ws(self, must=True):
         r = self.rng.random()
@@ -681,20 +869,12 @@ class TurtleWriter:
 
     def iri_full(self, s):
         rng = self.rng
-        if self.use_base and rng.random() < 0.6:
-            rel = None
-            if s.startswith(BASE):
-                rest = s[len(BASE):]
-                if rest == "":
-                    rel = rng.choice(["", ".", "./"])
-                elif rest.startswith("#"):
-                    rel = rest
-                elif not rest.startswith("/") and ":" not in rest.split("/")[0].split("#")[0]:
-                    rel = rng.choice([rest, "./" + rest])
-            elif s.startswith("http://e/") and ":" not in s[len("http://e/"):].split("/")[0] and not s[len("http://e/"):].startswith("/"):
-                rest = s[len("http://e/"):]
-                rel = rng.choice(["/" + rest, "../" + rest, "//e/" + rest])
+        if self.use_base and rng.random() < 0.7:
+            rel = self.relative(s)
             if rel is not None:
+                self.flags.add("rel_" + ("empty" if rel == "" else "netpath" if rel.startswith("//") else "abspath" if rel.startswith("/")
+                                         else "query" if rel.startswith("?") else "fragment" if rel.startswith("#")
+                                         else "dotdot" if rel.startswith("..") else "dot" if rel.startswith(".") else "relpath"))
                 return "<" + "".join(uescape(rng, c) if (c in '<>"{}|^`\\' or ord(c) <= 0x20) else c for c in rel) + ">"
         return nt_iri(rng, s, esc=rng.choice([0.0, 0.0, 0.1]))
 
@@ -812,15 +992,27 @@ class TurtleWriter:
         lines = []
         decls = sorted(self.used)
         rng.shuffle(decls)
+        need_base_first = False
         for pfx, ns in decls:
+            ns_txt = nt_iri(rng, ns, 0.0)
+            if self.use_base and rng.random() < 0.4:
+                rel = self.relative(ns)
+                if rel is not None:       # PREFIX ns: </ns/> : a namespace IRI is resolved like any other IRIREF
+                    ns_txt = "<" + rel + ">"
+                    need_base_first = True
+                    self.flags.add("rel_prefix")
             if rng.random() < 0.5:
-                lines.append("@prefix" + self.ws(True) + pfx + ":" + self.ws(False) + nt_iri(rng, ns, 0.0) + self.ws(False) + ".")
+                lines.append("@prefix" + self.ws(True) + pfx + ":" + self.ws(False) + ns_txt + self.ws(False) + ".")
             else:
-                lines.append(rng.choice(["PREFIX", "prefix", "PrEfIx"]) + self.ws(True) + pfx + ":" + self.ws(False) + nt_iri(rng, ns, 0.0))
-        b = ("@base" + self.ws(True) + "<" + BASE + ">" + self.ws(False) + ".") if rng.random() < 0.5 else \
-            (rng.choice(["BASE", "base", "Base"]) + self.ws(True) + "<" + BASE + ">")
-        if self.use_base:
-            lines.insert(rng.randrange(len(lines) + 1), b)
+                lines.append(rng.choice(["PREFIX", "prefix", "PrEfIx"]) + self.ws(True) + pfx + ":" + self.ws(False) + ns_txt)
+        if self.via == "@base":
+            b = "@base" + self.ws(True) + "<" + self.base + ">" + self.ws(False) + "."
+        elif self.via == "BASE":
+            b = rng.choice(["BASE", "base", "Base"]) + self.ws(True) + "<" + self.base + ">"
+        else:
+            b = None
+        if b is not None:
+            lines.insert(0 if need_base_first else rng.randrange(len(lines) + 1), b)
         return "".join(ln + self.ws(True) for ln in lines)
 
     def turtle(self, sts):
@@ -956,7 +1148,10 @@ def split_qname(iri):
 
 def rdfxml_document(rng, triples):
     """flat triples -> RDF/XML text with random structural choices (typed node elements, property attributes,
-    nested node elements, rdf:parseType="Resource", rdf:ID under xml:base, relative rdf:about), or None if not expressible"""
+    nested node elements, rdf:parseType="Resource", property attributes on an empty property element, rdf:ID under
+    xml:base, relative rdf:about) and random xml:lang scoping: xml:lang on rdf:RDF, node elements and property
+    elements, inherited by everything below, overridden by nested values, switched off by xml:lang="";
+    None if not expressible"""
     nsmap = {RDF: "rdf"}
 
     def qn(iri):
@@ -971,24 +1166,49 @@ def rdfxml_document(rng, triples):
     def ncname(x):
         return bool(x) and (x[0].isalpha() or x[0] == "_") and all(c.isalnum() or c in "_-." for c in x)
 
+    def lang_of(o):
+        return o[2][1] if o[2] is not None and o[2][0] == "lang" else None
+
+    def lang_eq(a, b):
+        return (a or "").lower() == (b or "").lower()
+
+    def pick_scope(scope, p=0.4):
+        """maybe an xml:lang attribute: (attribute text, language in effect afterwards)"""
+        if rng.random() > p:
+            return "", scope
+        v = rng.choice(["", "", "en", "fr", "EN-us", "de-DE-1996"])
+        return f' xml:lang="{v}"', (v or None)
+
     by_s = {}
     refs = {}
     for s, p, o in triples:
         by_s.setdefault(s, []).append((p, o))
         if o[0] == "B":
             refs[o] = refs.get(o, 0) + 1
-    nested = {b for b, n in refs.items() if n == 1 and b[1].startswith("_anon") and b in by_s and rng.random() < 0.6}
+    nested = {b: rng.choice(["resource", "node", "propattrs"]) for b, n in refs.items()
+              if n == 1 and b[1].startswith("_anon") and b in by_s and rng.random() < 0.7}
     use_base = rng.random() < 0.5
+    root_lang = rng.choice([None, None, "en", "de", "EN-us"])
 
     class Bad(Exception):
         pass
 
-    def props(s, inner):
-        """-> (attribute strings, element strings, tag)"""
+    def propattrs_ok(o):
+        pos = by_s[o]
+        if not pos or len({p for p, _ in pos}) != len(pos):
+            return False
+        for p, v in pos:
+            q = qn(p[1])
+            if q is None or q.startswith("rdf:") or v[0] != "L" or (v[2] is not None and v[2][0] != "lang") or not xml_ok(v[1]):
+                return False
+        return all(lang_eq(lang_of(v), lang_of(pos[0][1])) for _, v in pos)
+
+    def props(s, attrs_allowed, typed_allowed, scope):
+        """scope = the language in effect on the element that carries these properties -> (attribute strings, element strings, tag)"""
         attrs, elems, tag = [], [], "rdf:Description"
         pos = list(by_s.get(s, []))
         types = [o for p, o in pos if p[1] == RDF + "type" and o[0] == "I" and qn(o[1])]
-        if types and not inner and rng.random() < 0.6:
+        if types and typed_allowed and rng.random() < 0.6:
             tag = qn(types[0][1])
             pos.remove((("I", RDF + "type"), types[0]))
         seen_attr = set()
@@ -999,24 +1219,42 @@ def rdfxml_document(rng, triples):
             if o[0] == "L":
                 if not xml_ok(o[1]):
                     raise Bad()
-                if (o[2] is None and not inner and rng.random() < 0.3 and q not in seen_attr and not q.startswith("rdf:")
-                        and sum(1 for pp, _ in pos if pp == p) == 1):
-                    seen_attr.add(q)
+                typed = o[2] is not None and o[2][0] == "dt"
+                l_ = lang_of(o)
+                if (not typed and attrs_allowed and lang_eq(l_, scope) and rng.random() < 0.35 and q not in seen_attr
+                        and not q.startswith("rdf:") and sum(1 for pp, _ in pos if pp == p) == 1):
+                    seen_attr.add(q)       # a property attribute takes the language in effect on its element
                     attrs.append(f'{q}="{xml_esc(o[1], True)}"')
-                elif o[2] is None:
-                    elems.append(f"<{q}>{xml_esc(o[1])}</{q}>")
-                elif o[2][0] == "lang":
-                    elems.append(f'<{q} xml:lang="{o[2][1]}">{xml_esc(o[1])}</{q}>')
+                elif typed:
+                    noise = rng.choice(["", "", "", ' xml:lang="en"', ' xml:lang=""'])    # xml:lang does not apply to typed literals
+                    elems.append(f'<{q} rdf:datatype="{xml_esc(o[2][1], True)}"{noise}>{xml_esc(o[1])}</{q}>')
+                elif lang_eq(l_, scope) and rng.random() < 0.7:
+                    elems.append(f"<{q}>{xml_esc(o[1])}</{q}>")        # inherited
                 else:
-                    elems.append(f'<{q} rdf:datatype="{xml_esc(o[2][1], True)}">{xml_esc(o[1])}</{q}>')
+                    elems.append(f'<{q} xml:lang="{l_ or ""}">{xml_esc(o[1])}</{q}>')
             elif o[0] == "I":
                 if rng.random() < 0.7:
                     elems.append(f'<{q} rdf:resource="{xml_esc(o[1], True)}"/>')
                 else:
                     elems.append(f'<{q}><rdf:Description rdf:about="{xml_esc(o[1], True)}"/></{q}>')
             elif o in nested:
-                _, ie, _ = props(o, True)
-                elems.append(f'<{q} rdf:parseType="Resource">' + "".join(ie) + f"</{q}>")
+                kind = nested[o]
+                if kind == "propattrs" and not propattrs_ok(o):
+                    kind = "resource"
+                if kind == "propattrs":
+                    want = lang_of(by_s[o][0][1])
+                    la = "" if lang_eq(want, scope) and rng.random() < 0.6 else f' xml:lang="{want or ""}"'
+                    elems.append(f"<{q}{la} " + " ".join(f'{qn(pp[1])}="{xml_esc(v[1], True)}"' for pp, v in by_s[o]) + "/>")
+                elif kind == "resource":
+                    la, sc = pick_scope(scope)
+                    _, ie, _ = props(o, False, False, sc)
+                    elems.append(f'<{q} rdf:parseType="Resource"{la}>' + "".join(ie) + f"</{q}>")
+                else:
+                    la, sc = pick_scope(scope)
+                    lb, sc2 = pick_scope(sc)
+                    ia, ie, itag = props(o, True, True, sc2)
+                    inner = f"<{itag}{lb}" + "".join(" " + a for a in ia) + (">" + "".join(ie) + f"</{itag}>" if ie else "/>")
+                    elems.append(f"<{q}{la}>" + inner + f"</{q}>")
             else:
                 if not ncname(o[1]):
                     raise Bad()
@@ -1029,7 +1267,8 @@ def rdfxml_document(rng, triples):
         for s in by_s:
             if s in nested:
                 continue
-            attrs, elems, tag = props(s, False)
+            la, sc = pick_scope(root_lang)
+            attrs, elems, tag = props(s, True, True, sc)
             if s[0] == "I":
                 if "#" in s[1] and ncname(s[1].split("#", 1)[1]) and rng.random() < 0.4:
                     head_attrs = [f'xml:base="{xml_esc(s[1].split("#", 1)[0], True)}"', f'rdf:ID="{s[1].split("#", 1)[1]}"']
@@ -1043,13 +1282,14 @@ def rdfxml_document(rng, triples):
                     return None
                 head_attrs = [f'rdf:nodeID="{s[1]}"']
             sep = rng.choice(["", "\n  ", "\n<!-- c -->\n"])
-            body.append(f"<{tag} " + " ".join(head_attrs + attrs) + (">" + sep + sep.join(elems) + sep + f"</{tag}>" if elems else "/>"))
+            body.append(f"<{tag}{la} " + " ".join(head_attrs + attrs) + (">" + sep + sep.join(elems) + sep + f"</{tag}>" if elems else "/>"))
     except Bad:
         return None
     head = '<?xml version="1.0" encoding="utf-8"?>\n' if rng.random() < 0.7 else ""
     nsdecl = " ".join(f'xmlns:{v}="{xml_esc(k, True)}"' for k, v in nsmap.items())
     base = f' xml:base="{BASE}"' if use_base else ""
-    return head + f"<rdf:RDF {nsdecl}{base}>\n" + "\n".join(body) + "\n</rdf:RDF>\n"
+    rl = f' xml:lang="{root_lang}"' if root_lang else ""
+    return head + f"<rdf:RDF {nsdecl}{base}{rl}>\n" + "\n".join(body) + "\n</rdf:RDF>\n"
 
 
 def jsonld_document(rng, triples):
@@ -1108,7 +1348,7 @@ class Conf(Suite):
     oeq = "bools_eqb"
     spec = "conf_spec"
     kf = "conf_kf"
-    kf_ids = {9: "C05i", 10: "C05j", 11: "C05k"}
+    kf_ids = {9: "C05i", 10: "C05j", 11: "C05k", 12: "C05l", 13: "C05m", 14: "C05n", 15: "C05o"}
     CHECKS: list = []
 
     def predicted(self, case):
@@ -1136,15 +1376,25 @@ def parse_keys(fmt, data, **kw):
     return {t + (None,) for t in graph_keys(g)}
 
 
+def parse_kw(case):
+    if case.get("publicID"):
+        return {"publicID": case["publicID"]}
+    return {"publicID": BASE} if case["format"] == "json-ld" else {}
+
+
 def gen_spell_case(rng):
     fmt = rng.choice(["turtle", "turtle", "turtle", "trig", "trig", "xml", "json-ld"])
-    labels = rng.sample(["b1", "b2", "x", "a.b", "_1"], 2)
+    labels = Ctx(rng.sample(["b1", "b2", "x", "a.b", "_1"], 2))
+    base = rng.choice(BASES)
+    via = rng.choice(["@base", "BASE", "publicID", "publicID", None]) if fmt in ("turtle", "trig") else None
+    if via is not None:
+        labels.near = [rfc_resolve(base, r) for r in NEAR_REFS]
     for _ in range(20):
         flags = []
         if fmt == "turtle":
             sts = g_statements(rng, labels)
             triples = Ev().statements(sts)
-            w = TurtleWriter(rng)
+            w = TurtleWriter(rng, base=base, via=via)
             doc = w.turtle(sts)
             flags = sorted(w.flags)
             quads = [t + (None,) for t in triples]
@@ -1161,7 +1411,7 @@ def gen_spell_case(rng):
                 ev.statements(sts)
                 quads += [t + (gn,) for t in ev.triples[before:]]
                 named.append((gn, sts))
-            w = TurtleWriter(rng, trig=True)
+            w = TurtleWriter(rng, trig=True, base=base, via=via)
             doc = w.trig(dsts, named)
             flags = sorted(w.flags)
         else:
@@ -1173,8 +1423,11 @@ def gen_spell_case(rng):
         if doc is not None and quads and nb <= 10:
             break
     else:
-        fmt, doc, quads, flags = "turtle", "<a:b> <a:b> <a:b> .", [(("I", "a:b"),) * 3 + (None,)], []
-    return {"format": fmt, "doc": doc, "expected": [[list(x) if x is not None else None for x in q] for q in quads], "flags": flags}
+        fmt, doc, quads, flags, via = "turtle", "<a:b> <a:b> <a:b> .", [(("I", "a:b"),) * 3 + (None,)], [], None
+    case = {"format": fmt, "doc": doc, "expected": [[list(x) if x is not None else None for x in q] for q in quads], "flags": flags}
+    if via == "publicID" and fmt in ("turtle", "trig"):
+        case["publicID"] = base
+    return case
 
 
 def expected_of(case):
@@ -1205,7 +1458,7 @@ class Spell(Conf):
 
     def run_impl(self, case):
         try:
-            got = parse_keys(case["format"], case["doc"], **({"publicID": BASE} if case["format"] == "json-ld" else {}))
+            got = parse_keys(case["format"], case["doc"], **parse_kw(case))
         except Exception as e:  # noqa: BLE001
             return {"parsed": False, "same_graph": False, "error": f"{type(e).__name__}: {str(e)[:200]}"}
         r = iso(got, expected_of(case))
@@ -1252,7 +1505,7 @@ class Sources(Conf):
 
     def run_impl(self, case):
         fmt, doc = case["format"], case["doc"]
-        kw = {"publicID": BASE} if fmt in ("json-ld", "turtle", "trig", "xml") else {}
+        kw = parse_kw(case)
         obs = {k: False for k in self.CHECKS}
         try:
             ref = parse_keys(fmt, doc, **kw)
@@ -1382,4 +1635,52 @@ class XmlOut(Conf):
             return {"wellformed": False}
 
 
-SUITES = [NtOut(), LangTag(), NtRead(), Spell(), Sources(), XmlOut()]
+class RelRef(Conf):
+    """every kind of relative reference against every kind of base, one IRI per document, through @base, BASE and
+    publicID, as a subject IRI and as a PREFIX namespace; expected value by the harness's own RFC 3986 5.2 resolver"""
+    name = "relref"
+    corr = "notation3.join, SinkParser.directive/sparqlDirective (@base, BASE, @prefix, PREFIX), uri_ref2; Graph.parse(publicID=)"
+    quick_n = 300
+    thorough_n = 3000
+    CHECKS = ["resolved"]
+    REFS = ["/s", "/", "//o.org/x", "//o.org", "x", "x/y", "./x", "../x", "../../x", "../../../x", "?q=2", "#f", "", "x?q#f", ".", "..",
+            "./", "../", "x/./y", "x/../y", "/a/../b", "?", "#", "x#", "/s?q", "x/.", "x/..", "/ns/"]
+
+    def gen(self, rng, i):
+        return {"format": rng.choice(["turtle", "trig"]), "base": rng.choice(BASES), "ref": rng.choice(self.REFS),
+                "via": rng.choice(["@base", "BASE", "publicID"]), "pos": rng.choice(["subject", "prefix", "object"])}
+
+    def sweep(self):
+        for b in BASES:
+            for r in self.REFS:
+                for via in ("@base", "BASE", "publicID"):
+                    for pos in ("subject", "prefix"):
+                        yield {"format": "turtle", "base": b, "ref": r, "via": via, "pos": pos}
+
+    def predicted(self, case):
+        k = rel_region(case["base"], case["ref"], case["via"])
+        return (k, ["resolved"]) if k else (0, [])
+
+    def run_impl(self, case):
+        b, r = case["base"], case["ref"]
+        head = f"@base <{b}> .\n" if case["via"] == "@base" else f"BASE <{b}>\n" if case["via"] == "BASE" else ""
+        if case["pos"] == "prefix":
+            doc, exp = head + f"PREFIX n: <{r}>\nn:x <a:p> <a:o> .", rfc_resolve(b, r) + "x"
+        elif case["pos"] == "object":
+            doc, exp = head + f"<a:s> <a:p> <{r}> .", rfc_resolve(b, r)
+        else:
+            doc, exp = head + f"<{r}> <a:p> <a:o> .", rfc_resolve(b, r)
+        if case["format"] == "trig":
+            doc = doc.replace("<a:s> <a:p>", "{ <a:s> <a:p>").replace("n:x <a:p>", "{ n:x <a:p>").replace(f"<{r}> <a:p> <a:o>", "{ " + f"<{r}> <a:p> <a:o>") + " }"
+        try:
+            got = parse_keys(case["format"], doc, **({"publicID": b} if case["via"] == "publicID" else {}))
+        except Exception:  # noqa: BLE001
+            return {"resolved": False}
+        iris = {x[1] for t in got for x in t if x is not None and x[0] == "I"} - {"a:s", "a:p", "a:o"}
+        return {"resolved": iris == {exp} or (exp in ("a:s", "a:p", "a:o") and not iris)}
+
+    def features(self, case, obs):
+        return {"via_" + case["via"]: 1, "pos_" + case["pos"]: 1, "in_known_region": int(self.predicted(case)[0] != 0)}
+
+
+SUITES = [NtOut(), LangTag(), NtRead(), Spell(), Sources(), XmlOut(), RelRef()]
